@@ -602,6 +602,12 @@ def install(w):
             M['%s::%s' % (T, name)] = f
         M['<%s as Index>::index' % T] = s_index
         M['<%s as IndexMut>::index_mut' % T] = s_index
+    # glidesort free functions (stable sorts)
+    M['sort_by_key'] = s_sort_by_key
+    M['glidesort::sort_by_key'] = s_sort_by_key
+    M['sort_by'] = s_sort_by
+    M['glidesort::sort_by'] = s_sort_by
+    M['glidesort::sort'] = s_sort
     M['<Vec as Deref>::deref'] = s_as_slice
     M['<Vec as DerefMut>::deref_mut'] = s_as_slice
     M['<Vec as AsRef>::as_ref'] = s_as_slice
